@@ -376,8 +376,8 @@ func init() {
 
 var c10Cfg = func() genCfg {
 	cfg := genCfg{
-		Names:          []string{"i", "s", "m", "st", "arr", "f64", "i64", "n", "b", "t", "$x", "$y", "$loc2", "a$b", "len", "undefinedName", "strs", "dec", "mi", "__v", "$__v", "_"},
-		SelNames:       []string{"a", "b", "c", "s", "n", "Name", "Inner", "Label", "null", "typeof", "$k", "k", "__v", "_"},
+		Names:          []string{"i", "s", "m", "st", "arr", "f64", "i64", "n", "b", "t", "$x", "$y", "$loc2", "a$b", "len", "undefinedName", "strs", "dec", "mi", "__v", "$__v", "_", "I", "S", "M", "St", "$X", "B"},
+		SelNames:       []string{"a", "b", "c", "s", "n", "Name", "Inner", "Label", "null", "typeof", "$k", "k", "__v", "_", "A", "name", "NAME", "K"},
 		Nums:           []string{"0", "1", "2", "1.5", "10"},
 		Strs:           []string{"", "a", "hello", "l"},
 		Kws:            []string{"null", "true", "false"},
